@@ -26,6 +26,9 @@ type vfC12Case struct {
 	Stream int    `json:"stream"`
 	K      int    `json:"k"`
 	How    string `json:"how"` // fin | rst
+	// ViaResume: the session that is cut is the second one, obtained by calling Client.Resume() synchronously
+	// from inside the Disconnected handler of a first loss (what a StreamManager does)
+	ViaResume bool `json:"via_resume,omitempty"`
 }
 
 func vfC12GenStream(r *rand.Rand, n int, idx int) *vfC12Stream {
@@ -100,14 +103,36 @@ func vfC12Run(run *vfkit.Run, st *vfC12Stream, cs *vfC12Case) {
 	if st.Keepalive > 0 {
 		tag += ":keepalive"
 	}
+	if cs.ViaResume {
+		tag += ":via-resume"
+	}
 	cutDone := make(chan struct{})
 	var perr error
+	target := 0
+	if cs.ViaResume {
+		target = 1
+	}
+	resumedUp := make(chan struct{})
 	peer := vfNewPeer(func(pc *vfPeerConn) {
+		if pc.N > target {
+			return
+		}
+		o := &vfNeg{SM: st.SM, ExpectEnable: st.SM && pc.N == 0, SMResume: "true", SMID: "sm-c12", ExpectPresence: pc.N == 0, Bind: true, Resume: "resumed"}
+		if pc.N < target {
+			// first session of a via-resume case: established, then lost at a stanza boundary
+			if _, err := pc.Negotiate(o); err != nil {
+				perr = err
+			}
+			pc.Close()
+			return
+		}
 		defer close(cutDone)
-		o := &vfNeg{SM: st.SM, ExpectEnable: st.SM, SMResume: "true", SMID: "sm-c12", ExpectPresence: true, Bind: true}
-		if _, err := pc.Negotiate(o); err != nil { // returns after the initial presence: Connect has finished its own writes
+		if _, err := pc.Negotiate(o); err != nil { // returns after the initial presence / the resumption: the client's own writes are done
 			perr = err
 			return
+		}
+		if cs.ViaResume {
+			<-resumedUp // Resume() has returned in the handler: the new receive loop and keepalive are started
 		}
 		pc.Send(st.Bytes[:cs.K])
 		if cs.How == "rst" {
@@ -127,18 +152,40 @@ func vfC12Run(run *vfkit.Run, st *vfC12Stream, cs *vfC12Case) {
 		return
 	}
 	obs.catchAll(c.router)
+	wantReports := 1
+	if cs.ViaResume {
+		wantReports = 2
+		var once sync.Once
+		var resumeErr error
+		c.SetHandler(func(e Event) error {
+			obs.onEvent(e)
+			if e.State.state == StateDisconnected {
+				once.Do(func() {
+					resumeErr = c.Resume() // synchronously, inside the goroutine that detected the loss
+					close(resumedUp)
+				})
+			}
+			return nil
+		})
+		defer func() { _ = resumeErr }()
+	}
 	if err := c.Connect(); err != nil {
 		run.Inconclusive("connect-failed")
 		return
 	}
 	defer func() { go c.Disconnect() }()
-	<-cutDone
+	select {
+	case <-cutDone:
+	case <-time.After(30 * time.Second):
+		run.Inconclusive("peer-watchdog")
+		return
+	}
 	if perr != nil {
 		run.Inconclusive("peer-script")
 		return
 	}
 	reported := vfWaitUntil(15*time.Second, func() bool {
-		return len(obs.Errors()) >= 1 && obs.CountState(StateDisconnected) >= 1
+		return len(obs.Errors()) >= wantReports && obs.CountState(StateDisconnected) >= wantReports
 	})
 	if !reported {
 		alive := vfClientHasRecv(c)
@@ -148,9 +195,9 @@ func vfC12Run(run *vfkit.Run, st *vfC12Stream, cs *vfC12Case) {
 			return
 		}
 		k := "C12/loss-not-reported:"
-		if nerr >= 1 && ndis == 0 {
+		if nerr >= wantReports && ndis < wantReports {
 			k = "C12/no-disconnected-event:"
-		} else if nerr == 0 && ndis >= 1 {
+		} else if nerr < wantReports && ndis >= wantReports {
 			k = "C12/no-error-callback:"
 		}
 		run.Violation(k+tag, fmt.Sprintf("cut at byte %d (%s): the receive loop has ended with %d error callbacks and %d Disconnected events", cs.K, cs.How, nerr, ndis), map[string]interface{}{"case": cs, "prefix": st.Bytes[:cs.K]})
@@ -176,11 +223,11 @@ func vfC12Run(run *vfkit.Run, st *vfC12Stream, cs *vfC12Case) {
 		return
 	}
 	nerr, ndis := len(obs.Errors()), obs.CountState(StateDisconnected)
-	if nerr != 1 {
+	if nerr != wantReports {
 		run.Violation("C12/error-callback-count:"+tag, fmt.Sprintf("cut at byte %d (%s): %d error callbacks %v", cs.K, cs.How, nerr, obs.Errors()), map[string]interface{}{"case": cs, "prefix": st.Bytes[:cs.K]})
 		return
 	}
-	if ndis != 1 {
+	if ndis != wantReports {
 		run.Violation("C12/disconnected-event-count:"+tag, fmt.Sprintf("cut at byte %d (%s): %d Disconnected events", cs.K, cs.How, ndis), map[string]interface{}{"case": cs, "prefix": st.Bytes[:cs.K]})
 		return
 	}
@@ -227,9 +274,12 @@ func vfC12Run(run *vfkit.Run, st *vfC12Stream, cs *vfC12Case) {
 			}
 		}
 	}
+	if cs.ViaResume {
+		run.Count("cuts_on_resumed_session", 1)
+	}
 	run.Count("cuts_"+cs.How, 1)
 	run.Count("stanzas_routed_before_cut", int64(len(got)))
-	run.Nontrivial(fmt.Sprintf("%d|%d|%s", cs.Stream, cs.K, cs.How))
+	run.Nontrivial(fmt.Sprintf("%d|%d|%s|%v", cs.Stream, cs.K, cs.How, cs.ViaResume))
 }
 
 func TestVf_C12(t *testing.T) {
@@ -257,6 +307,9 @@ func TestVf_C12(t *testing.T) {
 			cases = append(cases, &vfC12Case{Stream: si, K: k, How: "fin"})
 			if vfkit.Thorough() || k%7 == si%7 {
 				cases = append(cases, &vfC12Case{Stream: si, K: k, How: "rst"})
+			}
+			if st.SM && (vfkit.Thorough() || k%5 == si%5) {
+				cases = append(cases, &vfC12Case{Stream: si, K: k, How: "fin", ViaResume: true})
 			}
 		}
 		run.Count("stream_bytes", int64(len(st.Bytes)))
